@@ -70,7 +70,7 @@ class XGen:
             return self.leaf(shape)
         c = r.choice([2.0, -3.0, 0.5, 3, np.float64(1.5)])
         k = r.choice(["add", "sub", "smul", "muls", "divs", "sdivl", "mul", "pow", "sin", "neg", "index",
-                      "transpose2", "reshape", "bcastadd", "einsum", "add", "sub", "smul", "divs"])
+                      "transpose2", "reshape", "bcastadd", "bcastadd", "einsum", "add", "sub", "smul", "divs"])
         a = self.operand(shape, depth - 1)
         if k == "add":
             return a + self.operand(shape, depth - 1)
@@ -109,6 +109,11 @@ class XGen:
         if k == "bcastadd":
             if not shape:
                 return a
+            if r.random() < 0.5:
+                # same rank, unit axes in one term (X(3,4) + Y(3,1)): shapes differ although the ranks agree
+                ushape = tuple(1 if r.random() < 0.6 else d for d in shape)
+                u = self.operand(ushape, depth - 1)
+                return (a + u) if r.random() < 0.5 else (u - a)
             return a + self.operand(shape[-1:], depth - 1)     # broadcasting add: shapes differ
         if k == "einsum":
             if self.n_einsum >= self.max_einsum or len(shape) != 1:
